@@ -149,7 +149,7 @@ def install_monitoring():
     names = {}
     for cls, fns in ((Sandbox, ['_execute_with_timeout', '_execute', '_start_mocking', '_stop_mocking', '_stop_patches',
                                 '_capture_exception', 'append_output', '_import', '_finish_execution']),
-                     (InterruptableThread, ['terminate', 'run'])):
+                     (InterruptableThread, ['terminate', 'run', '_async_raise'])):
         for fn in fns:
             if not hasattr(cls, fn):
                 continue
@@ -524,10 +524,32 @@ def run_deadline_case(ctx, case):
     snap = sc.Snapshot(sandbox)
     ctl = Controller()
     variant = case.get('variant', 'inside-its-own-finish')
+    start_after_activation = []
     if variant == 'inside-its-own-finish':
         decided = ('G', 'abandon_execution', 'start') if _HAS_ABANDON[0] else ('G', 'terminate', 'start')
         held_at = '_stop_mocking'
         ctl.holds.append(('Z1', '_stop_mocking', 'start', 1, decided, 1))
+    elif variant == 'between-lookup-and-interrupt':
+        # the student's thread ends after the grader has found it among the live threads, but before the interpreter is asked to
+        # interrupt it: the interrupt is addressed to a thread that no longer exists
+        if not _HAS_ABANDON[0] or zombie_handler_fn() != '_finish_execution' or not hasattr(__import__('pedal.sandbox.timeout', fromlist=['x']).InterruptableThread, '_async_raise'):
+            ctx.count('deadline_variant_not_applicable_to_this_tree')
+            sys.stdout = saved_stdout
+            return
+        decided = ('G', '_async_raise', 'start')
+        held_at = '_finish_execution'
+        ctl.holds.append(('Z1', '_finish_execution', 'start', 1, decided, 1))
+        ctl.holds.append(('G', '_async_raise', 'start', 1, 'student-thread-ended', 1))
+
+        def ended_watcher():
+            end = time.time() + GATE_TIMEOUT
+            while time.time() < end and ctl.active:
+                if ctl.zombie_threads and not ctl.zombie_threads[0].is_alive() and ctl.seen(('G', '_async_raise', 'start')):
+                    time.sleep(0.05)         # the interpreter's own record of the thread goes right after
+                    ctl.flag('student-thread-ended')
+                    return
+                time.sleep(0.005)
+        start_after_activation.append(ended_watcher)
     else:
         # 'between-disown-and-interrupt': the student's code ends after the grader has disowned the execution but before the
         # grader interrupts the thread, so the interrupt finds a thread that is already gone
@@ -541,6 +563,8 @@ def run_deadline_case(ctx, case):
         ctl.holds.append(('G', 'abandon_execution', 'return', 1, ('Z1', '_execute', 'return'), 1))
     _CTL[0] = ctl
     ctl.active = True
+    for fn in start_after_activation:
+        threading.Thread(target=fn, daemon=True, name='verif-ended-watcher').start()
     raised = None
     returned = threading.Event()
     main_ident = threading.main_thread().ident
@@ -779,7 +803,7 @@ def run(ctx):
                 ctx.note('a student thread was left running by %s; this worker stops here' % case_label(case))
                 return
     finite = [{'program': p, 'entry': e, 'kind': 'deadline', 'variant': v} for p in FINITE for e in ('run', 'call', 'evaluate')
-              for v in ('inside-its-own-finish', 'between-disown-and-interrupt')]
+              for v in ('inside-its-own-finish', 'between-disown-and-interrupt', 'between-lookup-and-interrupt')]
     for rep in range(ctx.pick(1, 4)):
         for c in finite[ctx.shard::ctx.nshards]:
             if ctx.time_left() < 12:
